@@ -2,10 +2,16 @@
 
 package x25519
 
-// c06Backend reads the switch the assembly itself tests (CHECK_BMI2ADX).
-func c06Backend() string {
-	if hasBmi2Adx {
-		return "asm-bmi2adx"
-	}
-	return "asm-legacy"
+// Read-out of the switch the assembly itself tests (CHECK_BMI2ADX). This file
+// names the unexported hasBmi2Adx and nothing else depends on it.
+
+import "github.com/cloudflare/circl/internal/verifc06"
+
+func init() {
+	verifc06.RegisterBackend("x25519", func() string {
+		if hasBmi2Adx {
+			return "asm-bmi2adx"
+		}
+		return "asm-legacy"
+	})
 }
